@@ -144,7 +144,32 @@ func evalC16History(h c16History) *Failure {
 	return failf(c16Key(h), "history against the %s (%s) is not linearizable (initial %v):\n  %s", h.Store, h.Mode, h.Init, strings.Join(lines, "\n  "))
 }
 
-func init() { register("c16.history", evalC16History) }
+// c16Scenario is a re-executable controlled scenario (used for probes of repaired findings).
+type c16Scenario struct {
+	Init   [][]string `json:"init,omitempty"`
+	Rounds []struct {
+		A    []string `json:"a"`
+		B    []string `json:"b"`
+		Gate int      `json:"gate"`
+	} `json:"rounds"`
+}
+
+func evalC16Scenario(sc c16Scenario) *Failure {
+	var rs [][3]interface{}
+	for _, r := range sc.Rounds {
+		rs = append(rs, [3]interface{}{r.A, r.B, r.Gate})
+	}
+	hist, err := runControlled(sc.Init, rs)
+	if err != nil {
+		return failf("harness|controlled", "controlled run: %v", err)
+	}
+	return evalC16History(hist)
+}
+
+func init() {
+	register("c16.history", evalC16History)
+	register("c16.scenario", evalC16Scenario)
+}
 
 // ---- running workloads
 
